@@ -15,7 +15,8 @@ from harness.lib import GEN, VERIF, Finding, PropertyCheck, TranslateError, run_
 from translate import astutil, tr_transfer
 
 DRIVER = Path(__file__).with_name("c23_driver.py")
-KINDS = ["fan", "twice", "files", "inline", "apply", "chain", "caught", "mix", "boom"]
+KINDS = ["fan", "twice", "files", "inline", "apply", "chain", "caught", "mix", "boom", "multi", "nested"]
+SUBTASKS = ["combine", "combine", "multi", "nested_multi", "left", "fan", "twice", "add", "chain"]
 
 K_REORDER = "transfer:call:child-edges-reordered"
 K_CACHE = "cache:transferred-node-served-but-source-refuses"
@@ -188,8 +189,8 @@ class Lits:
 def gen_scenarios(rng, count):
     out = []
     for k in range(count):
-        ty = k % 4
-        repos = ["a", "b", "c"] if ty == 2 else ["a", "b"]
+        ty = k % 5
+        repos = ["a", "b", "c"] if ty in (2, 4) else ["a", "b"]
         setup = []
 
         def runs(repo, n):
@@ -268,12 +269,35 @@ def gen_scenarios(rng, count):
             steps.append({"method": "export", "src": "a", "dst": "b", "roots": some})
             steps.append({"method": "export", "src": "a", "dst": "b"})
             steps.append({"method": "push", "src": "b", "dst": "c"})
+        elif ty == 4:
+            # roots below the execution: sub-jobs and call nodes whose arguments are fed by several
+            # upstream calls (those upstream calls are reachable only through the ArgumentResult rows)
+            first = na
+            for kind in ("multi", "nested", "multi", "nested"):
+                setup.append({"op": "run", "repo": "a", "kind": kind, "n": rng.randint(1, 4), "seed": rng.randint(0, 4)})
+                na += 1
+            tag_ops("a", na, 3, setup)
+
+            def sub(what, i, which=None):
+                return [what, first + i, "combine", rng.randrange(3) if which is None else which]
+            steps.append({"method": "push", "src": "a", "dst": "b", "roots": [sub("subjob", 0, 0)]})
+            steps.append({"method": "push", "src": "b", "dst": "c", "roots": [sub("subjob", 0, 0)], "roots_from": "a"})
+            steps.append({"method": "export", "src": "a", "dst": "b", "roots": [sub("subcall", 1)]})
+            steps.append({"method": "push", "src": "a", "dst": "b", "roots": [sub("subjob", 3), sub("subcall", 2, 0)]})
+            source_ops(2)
+            steps.append({"method": "export", "src": "a", "dst": "c", "roots": [sub("subjob", 1), ["job", first + 2]]})
+            steps.append({"method": "push", "src": "a", "dst": "b", "roots": [["call", rng.randrange(na)]]})
+            steps.append({"method": "pull", "src": "a", "dst": "b"})
         else:
             # random incremental history, 4-5 transfers with source-side operations in between
             for _ in range(rng.randint(4, 5)):
                 m = rng.choice(["push", "pull", "export"])
-                steps.append({"method": m, "src": "a", "dst": "b",
-                              **({"roots": [["exec", rng.randrange(na)]]} if m != "pull" and rng.random() < 0.35 else {})})
+                r = rng.random()
+                roots = {} if m == "pull" or r < 0.5 else \
+                    {"roots": [["exec", rng.randrange(na)]]} if r < 0.7 else \
+                    {"roots": [[rng.choice(["subjob", "subcall"]), rng.randrange(na), rng.choice(SUBTASKS), rng.randrange(3)]
+                               for _ in range(rng.randint(1, 2))]}
+                steps.append({"method": m, "src": "a", "dst": "b", **roots})
                 source_ops(rng.randint(2, 3))
             steps.append({"method": rng.choice(["push", "pull", "export"]), "src": "a", "dst": "b"})
         out.append({"repos": repos, "setup": setup, "steps": steps, "e2e": k == 0})
@@ -296,6 +320,20 @@ def run_driver(spec, timeout=600):
 
 
 # ------------------------------------------------------------------ the implementation oracle
+def owned_targets(e):
+    """The ids a record refers to along the ownership edges the property names (every
+    ArgumentResult row of every argument included)."""
+    if e[0] == "exec":
+        return [e[2]]
+    if e[0] == "job":
+        return [x for x in (e[3], e[5]) if x is not None]      # parent_id / execution_id are not ownership edges
+    if e[0] == "call":
+        return [e[2], e[4]] + [c for _, c in e[6]] + [x for a, v, p, k, up in e[7] for x in (v,) + tuple(up)]
+    if e[0] == "value":
+        return list(e[4])
+    return list(e[5])                                          # tag: entity_id is not an ownership edge
+
+
 def reachable(src, roots):
     """Closure of the roots under: execution -> root job; job -> task, call node, child jobs;
     call node -> task, result, argument values, upstream call nodes, child call nodes;
@@ -318,21 +356,12 @@ def reachable(src, roots):
         nxt = list(ent_tags.get(i, [])) + list(child_jobs.get(i, [])) + list(child_tags.get(i, []))
         e = src.get(i)
         if e is not None:
-            if e[0] == "exec":
-                nxt.append(e[2])
-            elif e[0] == "job":
-                nxt += [e[3], e[5]]            # parent_id / execution_id are not ownership edges
-            elif e[0] == "call":
-                nxt += [e[2], e[4]] + [c for _, c in e[6]] + [x for a, v, p, k, up in e[7] for x in (v,) + tuple(up)]
-            elif e[0] == "value":
-                nxt += list(e[4])
-            else:
-                nxt += list(e[5])              # entity_id is not an ownership edge
+            nxt += owned_targets(e)
         todo += [x for x in nxt if x is not None]
     return {i for i in seen if i in src}
 
 
-def judge_step(rec, arrived=None):
+def judge_step(rec, arrived=None, known_kinds=None):
     """Decide the property for one transfer, from the dumps alone. -> [(key, what, detail)]
     `arrived`: ids that reached this destination by transfers of the history so far (incl. this one)."""
     out = []
@@ -409,6 +438,22 @@ def judge_step(rec, arrived=None):
                             {"id": i, "src": s, "dst": a}))
         elif a != s:
             out.append((f"transfer:{s[0]}:differs", f"{tagm}: {s[0]} record {i} arrives different", {"id": i, "src": s, "dst": a}))
+    # referential closure at the destination: a record that arrived refers (ownership edges, every
+    # ArgumentResult row) only to records that are there too, or that the source lacks as well
+    ndang = 0
+    for i in after:
+        if i in before or i not in src:
+            continue
+        for t in owned_targets(after[i]):
+            kind_t = src[t][0] if t in src else (known_kinds or {}).get(t)
+            if t not in after and kind_t and ndang < 3:
+                ndang += 1
+                where = "exists in the source" if t in src else \
+                    "exists in the repository this history started from (lost on the way: relay)"
+                out.append((f"closure:{after[i][0]}-refers-to-missing-{kind_t}",
+                            f"{tagm}: transferred {after[i][0]} record {i} refers to {kind_t} record {t}, which {where} "
+                            "but is not in the destination (dangling reference)", {"id": i, "target": t}))
+
     # "current iff no edit supersedes it" in the destination (if it held before the transfer)
     def wf(b):
         ch = {p for e in b.values() if e[0] == "tag" for p in e[5]}
@@ -534,7 +579,7 @@ class Check(PropertyCheck):
                 if line.strip():
                     specs.append(json.loads(line)["spec"])
         specs += gen_scenarios(self.rng, n)
-        with ThreadPoolExecutor(max_workers=3) as ex:
+        with ThreadPoolExecutor(max_workers=5) as ex:
             res = list(ex.map(run_driver, specs))
         self._outs = []
         bad = []
@@ -594,7 +639,7 @@ class Check(PropertyCheck):
                 descr.append(what + ": theorem premises (unique ids, typed foreign keys, tag status invariant) on source and destination")
                 self.count((k, si))
                 self.stat("transfer_method", st["method"])
-                self.stat("roots", "selected" if st.get("roots") else "all executions")
+                self.stat("roots", "+".join(sorted({r[0] for r in st["roots"]})) if st.get("roots") else "all executions")
                 self.stat("destination", "empty" if not before else "non-empty")
                 self.stat("records_transferred", min(len(after) - len(before), 200) // 25 * 25)
                 self.sample({"step": st, "source_records": len(src), "destination_before": len(before),
@@ -620,7 +665,7 @@ class Check(PropertyCheck):
                                                 pre, terms, chunk=100000)
             return k, ok, failing, diags, descr
 
-        with ThreadPoolExecutor(max_workers=3) as ex:
+        with ThreadPoolExecutor(max_workers=5) as ex:
             results = list(ex.map(go, jobs))
         total = sum(len(j[2]) for j in jobs)
         bad = []
@@ -636,11 +681,16 @@ class Check(PropertyCheck):
     def judge(self, out):
         found = []
         arrived = defaultdict(set)      # repository -> ids brought there by the transfers of this history
+        known_kinds = {}                # every record id seen in any source of this history -> its kind
+        for rec in out["steps"]:
+            for t, kind in (("execution", "exec"), ("job", "job"), ("call_node", "call"), ("value", "value"), ("tag", "tag")):
+                for r in rec["src"][t]:
+                    known_kinds[r[0]] = kind
         for si, rec in enumerate(out["steps"]):
             dst = rec["step"]["dst"]
             arrived[dst] |= {r[0] for t in ("execution", "job", "call_node", "value", "tag") for r in rec["dst_after"][t]} - \
                             {r[0] for t in ("execution", "job", "call_node", "value", "tag") for r in rec["dst_before"][t]}
-            for key, what, detail in judge_step(rec, arrived[dst]):
+            for key, what, detail in judge_step(rec, arrived[dst], known_kinds):
                 found.append((key, f"[transfer {si + 1} of {len(out['steps'])} in the history] " + what, detail))
         e = out.get("e2e")
         if e:
@@ -668,10 +718,15 @@ class Check(PropertyCheck):
                 rec = out["steps"][si] if si < len(out["steps"]) else None
                 self.count(("oracle", k, si))
                 self.stat("oracle_transfer_method", st["method"])
+                self.stat("oracle_roots", "+".join(sorted({r[0] for r in st["roots"]})) if st.get("roots") else "all executions")
                 self.stat("oracle_position_in_history", si + 1)
                 self.stat("oracle_source_ops_since_previous_transfer", min(pending, 5))
                 if rec is not None:
                     self.stat("oracle_destination", "empty" if not rec["dst_before"]["value"] else "non-empty")
+                    ups = defaultdict(int)
+                    for ah, _ in rec["dst_after"]["argument_result"]:
+                        ups[ah] += 1
+                    self.stat("oracle_max_upstream_calls_of_one_transferred_argument", max(ups.values(), default=0))
                     self.count(None, len(rec["probes"]))
                 pending = 0
                 si += 1
